@@ -457,19 +457,24 @@ func runHistory(base string, h *hist.History, certs *hist.Certs, nfresh int, fac
 		ops := st.Ops
 		if st.Shuffle != 0 {
 			ops = append([]hist.Op{}, ops...)
-			// only reorder events of different objects: events of one object arrive in order
+			// only reorder events of different objects: the events of one object arrive in order (the positions the
+			// permutation gives to the ops of one object are filled with them in their original order)
 			r := rand.New(rand.NewSource(st.Shuffle))
 			idx := r.Perm(len(ops))
-			sort.SliceStable(idx, func(a, b int) bool {
-				oa, ob := ops[idx[a]], ops[idx[b]]
-				if oa.Kind == ob.Kind && oa.Name == ob.Name {
-					return idx[a] < idx[b]
-				}
-				return false
-			})
+			slots := map[string][]int{} // object -> positions in the permuted list
+			for pos, j := range idx {
+				k := ops[j].Kind + "|" + ops[j].Name
+				slots[k] = append(slots[k], pos)
+			}
 			perm := make([]hist.Op, len(ops))
-			for i, j := range idx {
-				perm[i] = ops[j]
+			next := map[string]int{}
+			for j := range ops { // original order
+				k := ops[j].Kind + "|" + ops[j].Name
+				pos := slots[k]
+				sorted := append([]int{}, pos...)
+				sort.Ints(sorted)
+				perm[sorted[next[k]]] = ops[j]
+				next[k]++
 			}
 			ops = perm
 		}
